@@ -1,4 +1,4 @@
-from checks import mibcompile, oidindex, atomicwrite, searcher, readerlookup
+from checks import mibcompile, oidindex, atomicwrite, searcher, readerlookup, history
 
 RULE_MC = ('scenario = terminal state of MibCompile.tla exported by TLC (request x lazily chosen answers of every '
            'component x options); non-trivial = at least one component answered with a failure / fresh / borrow; '
@@ -47,3 +47,6 @@ def _c19_replay(path):
 
 
 REGISTRY['C19'] = {'run': _c19, 'replay': _c19_replay, 'finish': {'rule': RULE_MC + '; plus the borrower-extension scenarios of ReaderLookup.tla', 'exhaustive': True}}
+
+REGISTRY['C12'] = {'run': history.run, 'replay': history.replay, 'finish': {
+    'rule': 'history = sequence of inputs (13 valid/invalid MIB texts) fed to one instance of a kind (parser x2 dialects, symbol-table generator, JSON/pysnmp generator, compiler, same tree twice), enumerated by History.tla; non-trivial = length >= 2; distinct by (kind, history); plus one run per hash seed', 'exhaustive': True}}
